@@ -108,7 +108,23 @@ func coupledGroups(c *consNode) []cgroup {
 		cvBytes("bytes:shorter", "len=19", patternBytes(19, 0x11)), cvBytes("bytes:longer", "len=21", patternBytes(21, 0x11)))
 	types12 := cvVarints(uint64(kproto.PrevoteType), uint64(kproto.PrecommitType))
 	rounds := cvVarints(0, r, r+1)
+	h := c.Height
+	heights := []uint64{0, 1, 2, h, h + 1, h + 2, 1 << 63, max64 - 1, max64}
+	if h >= 1 {
+		heights = append(heights, h-1)
+	}
+	if h >= 2 {
+		heights = append(heights, h-2)
+	}
 	gs := []cgroup{
+		// the peer's claimed position: ValidateHeight couples height with last_commit_round; the gossip
+		// routines compute prs.Height+1 / +2 (wrap-around), index stores by it and pick votes by round
+		{Msg: "NewRoundStep", Fields: []cfield{
+			{Site: "new_round_step.height", Vals: cvVarints(heights...)},
+			{Site: "new_round_step.round", Vals: cvVarints(0, r, r+1, max32)},
+			{Site: "new_round_step.step", Vals: cvVarints(1, 3, 8)},
+			{Site: "new_round_step.last_commit_round", Vals: cvVarints(0, 1, max32)},
+		}},
 		// PartSet.AddPart: index < total, proof.index == index, proof.total == total, then parts[index]
 		{Msg: "BlockPart", Fields: []cfield{
 			{Site: "block_part.part.index", Vals: idx32(total)},
@@ -219,4 +235,65 @@ func genCoupled(w *worker, st, pm string, emit func(*caseT)) {
 	}
 }
 
-var _ = consensus.StateChannel
+// genClaimed: the peer first claims a position (NewRoundStep with a height relative to the node's own
+// height or at the wrap-around boundary, and the last_commit_round that passes ValidateHeight), then
+// sends each message that is matched against / stored under that position. The real gossip routines
+// run afterwards on the resulting peer state (catch-up branches included: the node's block store has
+// or has not a commit / block meta / part for the claimed height).
+func genClaimed(w *worker, st, pm string, emit func(*caseT)) {
+	c := w.cons.node(st)
+	h, r, n := c.Height, c.Round, uint64(nVals)
+	claimed := []uint64{h, h + 1, h + 2, 1 << 63, max64 - 1, max64}
+	if h >= 2 {
+		claimed = append(claimed, h-1)
+	}
+	if h >= 3 {
+		claimed = append(claimed, h-2)
+	}
+	total := c.Parts.Total()
+	for _, ch := range claimed {
+		for _, cr := range []uint32{r, r + 1} {
+			nrs := &consensus.NewRoundStepMessage{Height: ch, Round: cr, Step: 3, SecondsSinceStartTime: 1}
+			if ch > 1 {
+				nrs.LastCommitRound = 1
+			}
+			pre := [][]byte{consensus.MustEncode(nrs)}
+			preCh := []byte{chState}
+			claim := fmt.Sprintf("after NewRoundStep(height=%d, round=%d, last_commit_round=%d)", ch, cr, nrs.LastCommitRound)
+			hclass := varintClass(ch)
+			if ch >= h-2 && ch <= h+2 && h >= 2 || ch <= h+2 {
+				hclass = "near-own-height"
+			}
+			send := func(name string, home byte, field, class, desc string, m consensus.Message) {
+				emit(&caseT{Reactor: "consensus", State: st, Peer: pm, Msg: name, Kind: "coupled", Field: "claimed(new_round_step.height)+" + field,
+					Class: hclass + "+" + class, Desc: desc + ", " + claim, Ch: home, raw: consensus.MustEncode(m), pre: pre, preCh: preCh})
+			}
+			// the claim alone
+			send("NewRoundStep", chState, "new_round_step.round", varintClass(uint64(cr)), "a second NewRoundStep(step=6) for the claimed position",
+				&consensus.NewRoundStepMessage{Height: ch, Round: cr, Step: 6, SecondsSinceStartTime: 2, LastCommitRound: nrs.LastCommitRound})
+			for _, commit := range []bool{false, true} {
+				send("NewValidBlock", chState, "new_valid_block.height+new_valid_block.is_commit", fmt.Sprintf("claimed+%v", commit), fmt.Sprintf("NewValidBlock for the claimed height, is_commit=%v", commit),
+					&consensus.NewValidBlockMessage{Height: ch, Round: cr, BlockPartsHeader: c.Parts.Header(), BlockParts: bitArray(int(total), 0), IsCommit: commit})
+			}
+			for _, mh := range []uint64{ch, ch - 1, ch + 1} {
+				rel := map[uint64]string{ch: "claimed", ch - 1: "claimed-1", ch + 1: "claimed+1"}[mh]
+				for _, t := range []kproto.SignedMsgType{kproto.PrevoteType, kproto.PrecommitType} {
+					for _, idx := range []uint64{0, n - 1, n, max32} {
+						send("HasVote", chState, "has_vote.height+has_vote.type+has_vote.index", fmt.Sprintf("%s+%d+%s", rel, t, varintClass(idx)),
+							fmt.Sprintf("HasVote height=%d type=%d index=%d", mh, t, idx), &consensus.HasVoteMessage{Height: mh, Round: cr, Type: t, Index: uint32(idx)})
+					}
+					if mh != ch+1 {
+						send("VoteSetBits", chBits, "vote_set_bits.height+vote_set_bits.type", fmt.Sprintf("%s+%d", rel, t), fmt.Sprintf("VoteSetBits height=%d type=%d", mh, t),
+							&consensus.VoteSetBitsMessage{Height: mh, Round: cr, Type: t, BlockID: c.BlockID, Votes: bitArray(nVals, 1, 3)})
+					}
+				}
+			}
+			for _, t := range []kproto.SignedMsgType{kproto.PrevoteType, kproto.PrecommitType} {
+				send("VoteSetMaj23", chState, "vote_set_maj23.height+vote_set_maj23.type", fmt.Sprintf("claimed+%d", t), fmt.Sprintf("VoteSetMaj23 height=%d type=%d", ch, t),
+					&consensus.VoteSetMaj23Message{Height: ch, Round: cr, Type: t, BlockID: c.BlockID})
+			}
+			send("ProposalPOL", chData, "proposal_pol.height", "claimed", fmt.Sprintf("ProposalPOL height=%d", ch),
+				&consensus.ProposalPOLMessage{Height: ch, ProposalPOLRound: 0, ProposalPOL: bitArray(nVals, 0, 2)})
+		}
+	}
+}
